@@ -232,6 +232,16 @@ def build_body(rng, name, tvs, nvs, args):
             r = fresh()
             stmts.append({"op": "head", "v": a, "out": [r]})
             results.append((r, a["ty"][1]))
+            if a["ty"][2][0] == "nv":
+                # the nat variable used as a value and as the size of a comprehension (`range(n)`)
+                if rng.random() < 0.7:
+                    r = fresh()
+                    stmts.append({"op": "nlen", "v": a, "out": [r]})
+                    results.append((r, ("c", "int")))
+                if rng.random() < 0.5:
+                    r = fresh()
+                    stmts.append({"op": "ncomp", "v": a, "out": [r]})
+                    results.append((r, ("c", "int")))
         elif a["mode"] == "comptime" and a["ty"] == ("c", "nat"):
             r = fresh()
             stmts.append({"op": "natval", "v": a, "out": [r]})
@@ -396,10 +406,35 @@ def _value(rng, ty, literal):
     raise ValueError(ty)
 
 
-def gen_program(rng, n_callers=None):
+def gen_ct_nat_pair(rng, idx):
+    """`pick(k: int @comptime, [x: T,] xs: array[E, n])` and the mirrored control with the comptime parameter last"""
+    out = []
+    ct = ("c", rng.choice(["int", "bool", "float"]))
+    el = rng.choice([("c", "int"), ("tv", "T"), ("c", "float")])
+    with_tv = rng.random() < 0.5
+    for j, first in enumerate([True, False]):
+        name = f"c{idx + j}"
+        tvs, nvs = {}, ["n"]
+        mid = []
+        if with_tv:
+            tvs["U"] = "cd"
+            mid.append({"name": f"{name}a1", "ty": ("tv", "U"), "mode": "plain"})
+        if el[0] == "tv":
+            tvs[el[1]] = "cd"
+        arr = {"name": f"{name}a2", "ty": ("arr", el, ("nv", "n")), "mode": "plain"}
+        k = {"name": f"{name}a0", "ty": ct, "mode": "comptime"}
+        args = [k] + mid + [arr] if first else mid + [arr, k]
+        out.append(build_body(rng, name, tvs, nvs, args))
+    return out
+
+
+def gen_program(rng, n_callers=None, ct_nat_pair=None):
     n = n_callers or rng.choice([2, 3, 3, 4, 5])
     callers = []
-    for i in range(n):
+    if ct_nat_pair if ct_nat_pair is not None else rng.random() < 0.3:
+        callers += gen_ct_nat_pair(rng, 0)
+        n = max(n, 3)
+    for i in range(len(callers), n):
         if callers and rng.random() < 0.5:
             callers.append(gen_sibling(rng, rng.choice(callers), i))
         else:
@@ -460,6 +495,14 @@ def _stmt_src(s, mode, sub, spec_use):
         return f"{s['out'][0]} = apply(ident[{d_src(vt)}], {v})"
     if op == "natval":
         return f"{s['out'][0]} = int({v})"
+    if op in ("nlen", "ncomp"):
+        ln = s["v"]["ty"][2]
+        nsrc = f"len({v})" if mode == "py" else (str(sub[1].get(ln[1], ln[1])) if sub else ln[1])
+        if op == "nlen":
+            return f"{s['out'][0]} = 1 + {nsrc}"
+        if mode == "py":
+            return f"{s['out'][0]} = [7 for _ in range({nsrc})][0]"
+        return f"{s['out'][0]}_ys = array(7 for _ in range({nsrc}))\n    {s['out'][0]} = {s['out'][0]}_ys[0]"
     if op == "finv":
         return f"{s['out'][0]} = _fdiv(1.0, {v})" if mode == "py" else f"{s['out'][0]} = 1.0 / {v}"
     if op == "fmul":
@@ -715,6 +758,26 @@ def check_hugr(h):
                 if isinstance(kq, ht.ValueKind) and canon(J(kq.ty)) != canon(jt):
                     add(f"{fname}: a wire of type {kind.ty} feeds input {q.offset} of "
                         f"{type(h[q.node].op).__name__} that expects {kq.ty}")
+        if not isinstance(op, ops.Call | ops.LoadFunc | ops.CallIndirect):
+            # type arguments of extension ops (load_nat<n>, array ops, ...) and their cached concrete signature
+            oargs = []
+            if isinstance(op, ops.Custom | ops.ExtOp):
+                oargs = list(op.args)
+            elif callable(getattr(op, "type_args", None)):
+                try:
+                    oargs = list(op.type_args())
+                except Exception:  # noqa: BLE001
+                    oargs = []
+            if oargs or isinstance(op, ops.Custom | ops.ExtOp):
+                try:
+                    oname = op.op_name if isinstance(op, ops.Custom) else op.op_def().name
+                except Exception:  # noqa: BLE001
+                    oname = type(op).__name__
+                for a in oargs:
+                    scoped(J(a), f"a type argument of the op {oname}")
+                sig = getattr(op, "signature", None)
+                if sig is not None and hasattr(sig, "_to_serial_root"):
+                    scoped(J(sig), f"the signature of the op {oname}")
         if isinstance(op, ops.Call | ops.LoadFunc):
             callee = [src[0].node for _ip, src in h.incoming_links(n) if isinstance(h[src[0].node].op, ops.FuncDefn)]
             targs = [J(a) for a in op.type_args]
@@ -790,20 +853,21 @@ def hugr_ty_canon(t):
     return "?" + json.dumps(strip(t), sort_keys=True)
 
 
-def model_arg_canon(tree, cvi):
+def model_arg_canon(tree, cvi, cvn=None):
     """the same canonical name computed from a Guppy-level argument tree (output of the Lean model);
     `cvi(i)` = compile_variable_idx of the caller's bound variable i under the caller's mono args"""
     if tree[0] == "ty":
-        return _model_ty_canon(tree[1], cvi, top=True)
+        return _model_ty_canon(tree[1], cvi, top=True, cvn=cvn)
     c = tree[1]
     if c[0] == "cbvar":
-        return f"var{cvi(int(c[3]))}"
+        # a nat const variable: the model's `const_var_to_hugr` (driver op `cv`), else compile_variable_idx
+        return cvn(int(c[3])) if cvn else f"var{cvi(int(c[3]))}"
     if c[0] == "val" and c[2][0] == "int":
         return f"nat{c[2][1]}"
     return "?" + repr(tree)
 
 
-def _model_ty_canon(t, cvi, top=False):
+def _model_ty_canon(t, cvi, top=False, cvn=None):
     pre = "ty:" if top else ""
     if t[0] == "bvar":
         return pre + f"var{cvi(int(t[2]))}"
@@ -813,9 +877,9 @@ def _model_ty_canon(t, cvi, top=False):
         return pre + "bool"
     if t[0] == "opaque" and t[1] == "array":
         el, ln = t[2], t[3]
-        return pre + "array(" + model_arg_canon(ln, cvi) + "," + model_arg_canon(el, cvi) + ")"
+        return pre + "array(" + model_arg_canon(ln, cvi, cvn) + "," + model_arg_canon(el, cvi, cvn) + ")"
     if t[0] == "tuple":
-        return pre + "tuple(" + ",".join(_model_ty_canon(x, cvi) for x in t[2:]) + ")"
+        return pre + "tuple(" + ",".join(_model_ty_canon(x, cvi, cvn=cvn) for x in t[2:]) + ")"
     return "?" + repr(t)
 
 
